@@ -161,6 +161,7 @@ func scenarioC04(c *hlib.RunCtx) *hlib.Violation {
 	defer w.close()
 	s := w.s
 	w.strict = true
+	w.satur = c.Flag("family") == "saturation"
 	thorough := c.Flag("tier") == "thorough"
 	windowsOn := c.Flag("windows") != "" && c.Flag("windows") != "off"
 	realUnmap = windowsOn && t.Bool(1, 2)
@@ -211,7 +212,16 @@ func scenarioC04(c *hlib.RunCtx) *hlib.Violation {
 				n += 3 // enough distinct long names to reach a third page
 			}
 			for k := 0; k < n; k++ {
-				ops = append(ops, op{idx: t.Draw(len(pool)), n: int64(1 + t.Draw(4))})
+				o := op{idx: t.Draw(len(pool)), n: int64(1 + t.Draw(4))}
+				if w.satur && t.Bool(1, 2) {
+					// amounts that take a record to its limit in two or three adds: a
+					// kill (or another process's look) may fall inside the add that sticks
+					o.n = 1<<63 - 1 - int64(t.Draw(3))
+					if t.Bool(1, 3) {
+						o.n = int64(1)<<62 + int64(t.Draw(1<<20))
+					}
+				}
+				ops = append(ops, o)
 			}
 			threads = append(threads, thread{p, ops})
 		}
@@ -327,7 +337,7 @@ func (w *world) checkValuesBounded() {
 			continue
 		}
 		for n, val := range v.dec.Counts {
-			if val > w.begun[n] {
+			if w.exceeds(n, val, 0) {
 				w.fail("value-bounded", "%s: counter %q holds %d but only %d were begun", v.path[strings.LastIndex(v.path, "/")+1:], short(n), val, w.begun[n])
 				return
 			}
@@ -367,7 +377,7 @@ func (w *world) checkSurvivors() {
 			return
 		}
 		for _, cn := range p.allCounters() {
-			if !recordable(cn.Name()) {
+			if !recordable(cn.Name()) || w.satur {
 				continue
 			}
 			if _, _, _, extra, _ := cn.VerifState(); extra != 0 {
@@ -386,6 +396,11 @@ func (w *world) checkSurvivors() {
 	for n := range names {
 		if !recordable(n) {
 			continue // its counts stay in the processes' memory by design
+		}
+		if w.satur {
+			// near the limit of a record only the per-instant clauses apply
+			// (well-formed, never above what was begun, never decreasing)
+			continue
 		}
 		var lo, slack uint64
 		for _, p := range w.procs {
